@@ -222,6 +222,7 @@ func (fr *Frame) applyContract(spec *FuncSpec, fn *ssa.Function, sig *types.Sign
 	}
 	cf := fr.specFrame(spec, fn, sig, args, pkg)
 	cf.parent = nil
+	cf.callerFrame = fr
 	for k, v := range fr.closureBind {
 		cf.env[k] = v
 	}
